@@ -392,9 +392,13 @@ class BasePrior(eqx.Module):
         """
         shift = low
         scale = high - low
+        # give the transform the base support as its domain and validate arguments,
+        # so that the prior has zero density outside [low, high]
+        base_dist = dist.Uniform()
         prior_dist = dist.TransformedDistribution(
-            dist.Uniform(),
-            dist.transforms.AffineTransform(shift, scale),
+            base_dist,
+            dist.transforms.AffineTransform(shift, scale, domain=base_dist.support),
+            validate_args=True,
         )
         self._set_dist(var_name + self.suffix, prior_dist)
         self.reparam_dict[var_name + self.suffix] = infer.reparam.TransformReparam()
@@ -441,9 +445,13 @@ class BasePrior(eqx.Module):
         else:
             high_scaled = None
             high = jnp.inf
+        # give the transform the base support as its domain and validate arguments,
+        # so that the prior has zero density outside the truncation bounds
+        base_dist = dist.TruncatedNormal(low=low_scaled, high=high_scaled)
         prior_dist = dist.TransformedDistribution(
-            dist.TruncatedNormal(low=low_scaled, high=high_scaled),
-            dist.transforms.AffineTransform(loc, scale),
+            base_dist,
+            dist.transforms.AffineTransform(loc, scale, domain=base_dist.support),
+            validate_args=True,
         )
 
         self._set_dist(var_name + self.suffix, prior_dist)
